@@ -84,7 +84,7 @@ def run_kani(crate, harnesses, tag, jobs=8, harness_timeout=600, overall_timeout
                           'failed': [], 'cover': None, 'solver_s': 0.0, 'time_s': 0.0, 'checks': 0}
         return results, meta
     meta['tools'] = data.get('tools', {})
-    stats = {c_['harness_id']: c_.get('cbmc_stats', {}) for c_ in data.get('cbmc', [])}
+    stats = {c_['harness_id']: (c_.get('cbmc_stats') or {}) for c_ in data.get('cbmc', [])}
     errs = {e['harness_id']: e for e in data.get('error_details', [])}
     seen = {}
     for r in data['verification_results']['results']:
@@ -112,8 +112,8 @@ def run_kani(crate, harnesses, tag, jobs=8, harness_timeout=600, overall_timeout
             elif s in ('Undetermined', 'Unknown', 'Error'):
                 undetermined.append(ch['description'])
         res = {'failed': failed, 'cover': covers, 'time_s': r['duration_ms'] / 1000.0,
-               'solver_s': float(st.get('runtime_decision_procedure_s', 0.0)) + float(st.get('runtime_symex_s', 0.0)),
-               'sat_s': float(st.get('runtime_solver_s', 0.0)),
+               'solver_s': float(st.get('runtime_decision_procedure_s') or 0.0) + float(st.get('runtime_symex_s') or 0.0),
+               'sat_s': float(st.get('runtime_solver_s') or 0.0),
                'checks': len(r['checks']), 'vccs': st.get('vccs_generated'),
                'program_steps': st.get('size_program_expression')}
         e = errs.get(h, {})
